@@ -678,6 +678,8 @@ def _construct(ST, params, style):
     mn, mx, ms, im, is_, mode = params
     if style == 1 and (im, is_, mode) == (0, 0, 0):
         return ST(_valid_tuple, mn, mx, ms)  # documented defaults: init_min=0, init_max_silence=0, mode=0
+    if style == 3:
+        return ST(_valid_tuple, float(mn), float(mx), float(ms), float(im), float(is_), mode)  # whole numbers given as floats
     if style == 2:
         return ST(validator=_valid_tuple, min_length=mn, max_length=mx, max_continuous_silence=ms, init_min=im,
                   init_max_silence=is_, mode=mode)
@@ -719,7 +721,7 @@ def work_siblings(task):
                     fr = frames_of(n, bits)
                     fl = flags_of(n, bits)
                     for pattern in range(4):
-                        style = (bits + qi + pattern) % 3
+                        style = (bits + qi + pattern) % 4
                         a = _construct(ST, params, style)
                         if pattern == 3:
                             ga = a.tokenize(Src(fr), generator=True)
@@ -728,7 +730,7 @@ def work_siblings(task):
                             ta += list(ga)
                             tb = b.tokenize(Src(fr))
                         else:
-                            b = _construct(ST, q, (style + 1) % 3)
+                            b = _construct(ST, q, (style + 1) % 4)
                             if pattern == 2:
                                 tb = b.tokenize(Src(fr))
                                 ta = a.tokenize(Src(fr))
@@ -759,6 +761,34 @@ def work_siblings(task):
                                                  % (params, q, pattern, who, stream_str(n, bits) or "-", msg),
                                                  {"kind": "siblings", "oracle": oracle, "params": list(params), "stream": stream_str(n, bits)}))
     return {"cov": cov, "viol": viol, "nviol": nviol}
+
+
+def work_float_lengths(task):
+    """C01 quantifies over every parameter combination the constructor accepts - it accepts non-integral lengths
+    (max_length = max_dur / window computed by a caller without rounding): tokens must still be exact slices."""
+    tuples, L = task
+    ST = _auditok()["ST"]
+    cov = {"evaluations": 0, "distinct_nontrivial": 0, "traces_validated_against_impl": 0, "float_length_runs": 0, "samples": []}
+    viol = []
+    for (mn, mx, ms, im, is_, mode) in tuples:
+        for fmn, fmx, fms in ((mn, mx + 0.5, ms), (mn + 0.5 if mn < mx else mn, mx + 0.25, ms), (float(mn), float(mx), float(ms))):
+            for n in range(L + 1):
+                for bits in range(1 << n):
+                    fr = frames_of(n, bits)
+                    cov["evaluations"] += 1
+                    cov["float_length_runs"] += 1
+                    cov["traces_validated_against_impl"] += 1
+                    try:
+                        toks = ST(_valid_tuple, fmn, fmx, fms, im, is_, mode).tokenize(Src(fr))
+                        msg = tm.check_c01(fr, toks)
+                    except Exception as exc:
+                        toks, msg = [], "raised %r" % (exc,)
+                    cov["distinct_nontrivial"] += bool(toks)
+                    if msg and len(viol) < 4:
+                        viol.append(("float-lengths=%r,%r,%r,%d,%d,%d stream=%s" % (fmn, fmx, fms, im, is_, mode, stream_str(n, bits)),
+                                     "lengths (%r, %r, %r) on %s: %s" % (fmn, fmx, fms, stream_str(n, bits) or "-", msg),
+                                     {"kind": "floatlen", "params": [mn, mx, ms, im, is_, mode], "stream": stream_str(n, bits)}))
+    return {"cov": cov, "viol": viol}
 
 
 def work_model_selfcheck(task):
@@ -923,6 +953,10 @@ def run(prop, tier):
             tasks.append(("reuse", (prop, c, L1, L2)))
         for c in _interleave(rt, common.NPROC * 2):
             tasks.append(("siblings", (prop, c, 5 if tier == "quick" else 8)))
+    if prop == "C01":
+        ft = [t for t in tm.grid(3) if t[4] == 0]
+        for c in _interleave(ft, common.NPROC):
+            tasks.append(("floatlen", (c, 7 if tier == "quick" else 10)))
     lt = [t for t in long_tuples() if prop != "C04" or t[3] <= 1]
     for c in _interleave(lt, common.NPROC * 2):
         tasks.append(("long", (prop, c, 300 if tier == "quick" else 1000)))
@@ -952,6 +986,8 @@ def _dispatch(t):
         return work_reuse(task)
     if kind == "siblings":
         return work_siblings(task)
+    if kind == "floatlen":
+        return work_float_lengths(task)
     return work_cover(task)
 
 
@@ -959,6 +995,9 @@ def replay(case):
     """Re-execute one recorded case; returns complaint or None."""
     if case["kind"] == "tokreuse":
         part = work_reuse((case["oracle"], [tuple(case["params"])], len(case["first"]), len(case["stream"])))
+        return part["viol"][0][1] if part["viol"] else None
+    if case["kind"] == "floatlen":
+        part = work_float_lengths(([tuple(case["params"])], len(case["stream"])))
         return part["viol"][0][1] if part["viol"] else None
     if case["kind"] == "siblings":
         part = work_siblings((case["oracle"], [tuple(case["params"])], len(case["stream"])))
